@@ -146,6 +146,9 @@ pub struct Compactor {
     is_behind: AtomicBool,
     /// Chunks pending deletion, persisted to S3 to survive restarts
     pending_deletions: std::sync::RwLock<Vec<PendingDeletion>>,
+    /// Whether the persisted pending-deletion list has been merged into memory since
+    /// start-up. Until then persisting would overwrite entries nobody has read.
+    pending_loaded: AtomicBool,
     /// Shard monitor for detecting hot shards
     shard_monitor: Arc<ShardMonitor>,
     /// Shard splitter for executing splits
@@ -195,6 +198,7 @@ impl Compactor {
             backpressure_threshold,
             is_behind: AtomicBool::new(false),
             pending_deletions: std::sync::RwLock::new(Vec::new()),
+            pending_loaded: AtomicBool::new(false),
             shutdown: CancellationToken::new(),
             pin_registry: None,
             clock: Arc::new(BoundedClock::default()),
@@ -1052,15 +1056,24 @@ impl Compactor {
                     }
                 }
                 info!(count = pending.len(), "Loaded persisted pending deletions");
+                self.pending_loaded.store(true, Ordering::Release);
                 Ok(())
             }
-            Err(object_store::Error::NotFound { .. }) => Ok(()),
+            Err(object_store::Error::NotFound { .. }) => {
+                self.pending_loaded.store(true, Ordering::Release);
+                Ok(())
+            }
             Err(e) => Err(e.into()),
         }
     }
 
     /// Persist pending deletions to S3 so they survive restarts.
     async fn persist_pending_deletions(&self) -> Result<()> {
+        // The persisted list is replaced as a whole: never before it has been read (the
+        // load at start-up failed, or the cycle is driven without `run()`).
+        if !self.pending_loaded.load(Ordering::Acquire) {
+            self.load_pending_deletions().await?;
+        }
         let path = self.pending_deletions_path();
         let bytes = {
             let pending = self.pending_deletions.read().unwrap();
